@@ -3,6 +3,7 @@ import os, json
 from vlib import *
 import p_text as T
 import p_num as N
+import p_wb as W
 
 
 def tok_to_value(toks, i=0):
@@ -38,6 +39,11 @@ def run(tier):
     ctx = Ctx("C06", tier)
     q = ctx.quick
     builds = ["asan-avx2", "prod-avx2", "asan-sse"] if q else ["asan-avx2", "prod-avx2", "asan-sse", "prod-sse", "asan-dyn", "prod-dyn"]
+    # design level: the growth contracts of the serializer against Stack::Grow / Reserve for every starting capacity
+    bad, r = W.run(ctx, builds[:2])
+    if bad:
+        ctx.add_fail(dict(property="C06", kind="model", sig="model:WriteBuf", shape=dict(kind="model"), build="tlc",
+                          detail="WriteBuf!NoOverflow violated: " + r["out"][-1200:], case={}, replay=dict(harness="MC_WriteBuf")))
     # documents: valid texts from the TLC corpora (all value kinds, empty containers last, scalar roots, duplicate keys,
     # strings with every byte class at block offsets, wide containers, number boundaries)
     rows = []
